@@ -26,7 +26,30 @@ fn points(n: usize) -> Vec<usize> {
     }
 }
 
+/// EOF offsets: everything for short scripts; otherwise every offset around each record's header,
+/// payload start, payload end and padding, plus an even sample of the rest.
+fn eof_points(b: &Built, n: usize) -> Vec<usize> {
+    if n <= MAX_POINTS_PER_KIND {
+        return (0..n).collect();
+    }
+    let mut v: Vec<usize> = Vec::new();
+    for (i, r) in b.recs.iter().enumerate() {
+        let s = b.offs[i];
+        let pe = s + 8 + r.payload.len();
+        v.extend(s.saturating_sub(2)..(s + 14).min(n));
+        v.extend(pe.saturating_sub(3)..(pe + 3).min(n));
+        let end = pe + r.pad as usize;
+        v.extend(end.saturating_sub(2)..(end + 2).min(n));
+    }
+    let step = (n / 300).max(1);
+    v.extend((0..n).step_by(step));
+    v.sort_unstable();
+    v.dedup();
+    v
+}
+
 fn check_faulted(c: &ConnCase, b: &Built, m: &ConnModel, fault: &IoFault) -> Result<(), Fail> {
+    heartbeat();
     let ctx = format!("[fault {fault:?}]");
     let r = conn::run_conn(c, b, fault.clone(), |_, _| None).map_err(|f| Fail::new(f.sig, format!("{ctx} {}", f.msg)))?;
     let w = r.world.lock().unwrap();
@@ -99,7 +122,7 @@ fn test(c: &ConnCase) -> TestResult {
     };
     let kinds = [FaultKind::BrokenPipe, FaultKind::ConnectionReset, FaultKind::TimedOut, FaultKind::Other];
     let mut runs = 0u64;
-    for k in points(n_bytes + 1) {
+    for k in eof_points(&b, n_bytes + 1) {
         check_faulted(c, &b, &m, &IoFault::EofAt(k as u32))?;
         runs += 1;
     }
@@ -125,13 +148,26 @@ fn strategy() -> BoxedStrategy<ConnCase> {
     // C07 scripts, kept small so that every fault point can be enumerated
     conn::conn_case(2, false, Just(false).boxed())
         .prop_map(|mut c| {
+            let mut jumbo = false;
             for q in &mut c.reqs {
                 for s in &mut q.body.streams {
                     s.lens.truncate(3);
-                    for l in &mut s.lens {
-                        *l = (*l % 300).max(1);
+                    for (i, l) in s.lens.iter_mut().enumerate() {
+                        // keep an occasional record at the 16-bit limit (with its padding)
+                        if *l >= 65281 && s.pads.get(i).is_some_and(|p| *p > 0) && !jumbo {
+                            jumbo = true;
+                        } else {
+                            *l = (*l % 300).max(1);
+                        }
                     }
                 }
+                let shrink = |n: &mut crate::traffic::Noise| match n {
+                    crate::traffic::Noise::UnknownType { len, .. } | crate::traffic::Noise::Foreign { len, .. } | crate::traffic::Noise::ClientOutput { len, .. } | crate::traffic::Noise::StaleParams { len, .. } => *len %= 300,
+                    _ => {},
+                };
+                q.pre_noise.iter_mut().for_each(|(_, n)| shrink(n));
+                q.body.noise.iter_mut().for_each(|(_, n)| shrink(n));
+                q.after.iter_mut().for_each(shrink);
                 for p in &mut q.pre.params.pairs {
                     if p.value.len() > 64 {
                         p.value = crate::gen::Blob::Gen { len: 64, seed: 1 };
@@ -146,6 +182,13 @@ fn strategy() -> BoxedStrategy<ConnCase> {
                         _ => {},
                     }
                 }
+            }
+            c.tail.iter_mut().for_each(|n| if let crate::traffic::Noise::UnknownType { len, .. } | crate::traffic::Noise::Foreign { len, .. } | crate::traffic::Noise::ClientOutput { len, .. } | crate::traffic::Noise::StaleParams { len, .. } = n { *len %= 300 });
+            if jumbo {
+                // a 64 KiB record is only affordable with whole-buffer transfers
+                c.read_script = vec![crate::aio::RStep::Give(u16::MAX)];
+                c.write_script = vec![crate::aio::WStep::Accept(u16::MAX)];
+                c.buf = 8192;
             }
             c
         })
